@@ -9,7 +9,7 @@ from .common import analysis, W_NAMES, tokens, names_in
 from .c01 import check_shapes
 
 PROP = "C02"
-TECHNIQUE = "wire-shape extraction of every writer against the frozen Avro binary-encoding grammar; def-use provenance of length prefixes and indices; CFG dominance for the fixed-size gate and branch selection"
+TECHNIQUE = "wire-shape extraction of every writer against the frozen Avro binary-encoding grammar; def-use provenance of length prefixes and indices; CFG dominance for the fixed-size gate; forward provenance dataflow (constants, loop variables, selections) for the union index; path-summary extraction of the name a hint is compared with"
 LEVEL_TEXT = (
     "Static analysis: the token term each of the 16 writers emits (after inlining the encoder methods down to stream "
     "writes) is compared with the specification's term for that kind - an external oracle independent of fastavro's own "
